@@ -101,6 +101,7 @@ Record iset := { i_cpu : bool; i_mem : bool; i_gpu : bool }.
 Definition iempty : iset := {| i_cpu := false; i_mem := false; i_gpu := false |}.
 Definition iunion (a b : iset) : iset :=
   {| i_cpu := i_cpu a || i_cpu b; i_mem := i_mem a || i_mem b; i_gpu := i_gpu a || i_gpu b |}.
+Definition isempty (s : iset) : bool := negb (i_cpu s || i_mem s || i_gpu s).
 Definition imem (s : iset) (r : rname) : bool :=
   match r with Cpu => i_cpu s | Mem => i_mem s | Gpu => i_gpu s end.
 
@@ -330,10 +331,17 @@ Fixpoint siblings_ok (m : Q) (qs : list queue) (rinv : iset) (rq : queue) (cur :
             end in
           if negb same_parent || Pos.eqb (q_id sib) (q_id rq) then siblings_ok m qs rinv rq cur s r
           else
-            let involved := iunion (match aget (inv s) k with Some i => i | None => iempty end) rinv in
-            if saturation_lower m involved cur (fair_vec rq) (cur_rem s sib) (fair_vec sib)
-            then siblings_ok m qs rinv rq cur s r
-            else Ok false
+            match aget (inv s) k with
+            | None =>
+                (* maps.Clone(nil) is nil; maps.Copy into a nil map panics as soon as the
+                   reclaimer involves a resource (a queue that was looked at but from which
+                   no victim was subtracted: empty victim list) *)
+                if isempty rinv then siblings_ok m qs rinv rq cur s r else Panic
+            | Some i =>
+                if saturation_lower m (iunion i rinv) cur (fair_vec rq) (cur_rem s sib) (fair_vec sib)
+                then siblings_ok m qs rinv rq cur s r
+                else Ok false
+            end
       end
   end.
 
